@@ -34,7 +34,7 @@ package remux
 //@   requires gc.gopSize > 1
 //@   ensures [C02.newgop.count] gopCnt(gc) == (old(gopCnt(gc)) == gc.gopSize - 1 ? gc.gopSize - 1 : old(gopCnt(gc)) + 1)
 //@   ensures [C02.newgop.evict] gc.gopRingFirst == (old(gopCnt(gc)) == gc.gopSize - 1 ? (old(gc.gopRingFirst) + 1) % gc.gopSize : old(gc.gopRingFirst))
-//@   ensures [C02.newgop.key]   len(gc.gopRing[old(gc.gopRingLast)].data) == 1
+//@   ensures [C02.newgop.key]   len(gc.gopRing[old(gc.gopRingLast)].data) == 1 && gc.gopRing[old(gc.gopRingLast)].data[0] == b
 //@   ensures [C02.newgop.others] forall k in [0, gc.gopSize) :: k != old(gc.gopRingLast) ==> len(gc.gopRing[k].data) == old(len(gc.gopRing[k].data))
 //@   ensures [C02.newgop.size]  gc.gopSize == old(gc.gopSize) && gc.singleGopMaxFrameNum == old(gc.singleGopMaxFrameNum)
 //@ end
@@ -46,7 +46,8 @@ package remux
 //@   ensures [C02.last.ring]   gc.gopRingFirst == old(gc.gopRingFirst) && gc.gopRingLast == old(gc.gopRingLast) && gc.gopSize == old(gc.gopSize)
 //@   ensures [C02.last.empty]  old(gopCnt(gc)) == 0 ==> result && forall k in [0, gc.gopSize) :: len(gc.gopRing[k].data) == old(len(gc.gopRing[k].data))
 //@   ensures [C02.last.others] forall k in [0, gc.gopSize) :: k != lastPos ==> len(gc.gopRing[k].data) == old(len(gc.gopRing[k].data))
-//@   ensures [C02.last.append] old(gopCnt(gc)) > 0 && result ==> len(gc.gopRing[lastPos].data) == old(len(gc.gopRing[lastPos].data)) + 1
+//@   ensures [C02.last.append] old(gopCnt(gc)) > 0 && result ==> len(gc.gopRing[lastPos].data) == old(len(gc.gopRing[lastPos].data)) + 1 && gc.gopRing[lastPos].data[len(gc.gopRing[lastPos].data)-1] == b
+//@   ensures [C02.last.prefix] old(gopCnt(gc)) > 0 && result ==> forall i in [0, old(len(gc.gopRing[lastPos].data))) :: gc.gopRing[lastPos].data[i] == old(gc.gopRing[lastPos].data[i])
 //@   ensures [C02.last.cap]    gc.singleGopMaxFrameNum > 0 && old(gopCnt(gc)) > 0 && old(len(gc.gopRing[lastPos].data)) <= gc.singleGopMaxFrameNum ==> len(gc.gopRing[lastPos].data) <= gc.singleGopMaxFrameNum
 //@ end
 
@@ -54,4 +55,45 @@ package remux
 //@   props C02 C16
 //@   mode int
 //@   ensures [C02.clear] gopCnt(gc) == 0 && isnil(gc.VideoSeqHeader) && isnil(gc.AacSeqHeader) && isnil(gc.MetadataEnsureWithSetDataFrame) && isnil(gc.MetadataEnsureWithoutSetDataFrame)
+//@ end
+
+// ---- per-message conversions (C01: identical timestamps, byte-identical payloads; C11: valid tags) -----------------
+//@ func MakeDefaultRtmpHeader
+//@   props C01
+//@   ensures [C01.hdr.keep] out.MsgLen == in.MsgLen && out.TimestampAbs == in.TimestampAbs && out.MsgTypeId == in.MsgTypeId && out.MsgStreamId == 1
+//@   ensures [C01.hdr.csid] (in.MsgTypeId == 18 ==> out.Csid == 5) && (in.MsgTypeId == 8 ==> out.Csid == 6) && (in.MsgTypeId == 9 ==> out.Csid == 7)
+//@ end
+
+//@ func RtmpMsg2FlvTag
+//@   props C01 C11
+//@   requires len(msg.Payload) < 1<<24
+//@   ensures [C11.tag.hdr]     result.Header.Type == msg.Header.MsgTypeId && result.Header.DataSize == msg.Header.MsgLen && result.Header.Timestamp == msg.Header.TimestampAbs
+//@   ensures [C01.tag.payload] len(result.Raw) == 15 + len(msg.Payload) && forall i in [0, len(msg.Payload)) :: result.Raw[11+i] == msg.Payload[i]
+//@   ensures [C11.tag.raw]     result.Raw[0] == msg.Header.MsgTypeId && uint32(result.Raw[4])<<16 | uint32(result.Raw[5])<<8 | uint32(result.Raw[6]) == msg.Header.TimestampAbs & 0xFFFFFF && result.Raw[7] == uint8(msg.Header.TimestampAbs >> 24)
+//@ end
+
+//@ func FlvTagHeader2RtmpHeader
+//@   props C01 C11
+//@   ensures [C01.flv2rtmp] out.MsgLen == in.DataSize && out.MsgTypeId == in.Type && out.TimestampAbs == in.Timestamp && out.MsgStreamId == 1
+//@   ensures [C01.flv2rtmp.csid] (in.Type == 18 ==> out.Csid == 5) && (in.Type == 8 ==> out.Csid == 6) && (in.Type == 9 ==> out.Csid == 7)
+//@ end
+
+// Once-only conversion: the cached chunks are computed on the first call and returned unchanged afterwards.
+//@ func (*LazyRtmpChunkDivider).GetEnsureWithoutSdf
+//@   props C01
+//@   requires len(lcd.msg.Payload) < 1<<24 - 16 && (lcd.msg.Header.MsgTypeId == 8 || lcd.msg.Header.MsgTypeId == 9 || lcd.msg.Header.MsgTypeId == 18)
+//@   ensures [C01.lazy.once] !isnil(old(lcd.chunksWithoutSdf)) ==> result == old(lcd.chunksWithoutSdf)
+//@   ensures [C01.lazy.cache] result == lcd.chunksWithoutSdf
+//@   ensures [C01.lazy.chunked] isnil(old(lcd.chunksWithoutSdf)) ==> called(rtmp.Message2Chunks) && result == callresult(rtmp.Message2Chunks)
+//@   ensures [C01.lazy.meta.len] isnil(old(lcd.chunksWithoutSdf)) && lcd.msg.Header.MsgTypeId == 18 ==> callarg(rtmp.Message2Chunks, 1).MsgLen == uint32(len(callarg(rtmp.Message2Chunks, 0))) && callarg(rtmp.Message2Chunks, 1).Csid == 5 && callarg(rtmp.Message2Chunks, 1).TimestampAbs == lcd.msg.Header.TimestampAbs
+//@   ensures [C01.lazy.av.body] isnil(old(lcd.chunksWithoutSdf)) && lcd.msg.Header.MsgTypeId != 18 ==> callarg(rtmp.Message2Chunks, 0) == lcd.msg.Payload && callarg(rtmp.Message2Chunks, 1).MsgLen == lcd.msg.Header.MsgLen && callarg(rtmp.Message2Chunks, 1).TimestampAbs == lcd.msg.Header.TimestampAbs
+//@ end
+//@ func (*LazyRtmpChunkDivider).GetEnsureWithSdf
+//@   props C01
+//@   requires len(lcd.msg.Payload) < 1<<24 - 16 && (lcd.msg.Header.MsgTypeId == 8 || lcd.msg.Header.MsgTypeId == 9 || lcd.msg.Header.MsgTypeId == 18)
+//@   ensures [C01.lazy.once] !isnil(old(lcd.chunksWithSdf)) ==> result == old(lcd.chunksWithSdf)
+//@   ensures [C01.lazy.cache] result == lcd.chunksWithSdf
+//@   ensures [C01.lazy.chunked] isnil(old(lcd.chunksWithSdf)) ==> called(rtmp.Message2Chunks) && result == callresult(rtmp.Message2Chunks)
+//@   ensures [C01.lazy.meta.len] isnil(old(lcd.chunksWithSdf)) && lcd.msg.Header.MsgTypeId == 18 ==> callarg(rtmp.Message2Chunks, 1).MsgLen == uint32(len(callarg(rtmp.Message2Chunks, 0))) && callarg(rtmp.Message2Chunks, 1).Csid == 5 && callarg(rtmp.Message2Chunks, 1).TimestampAbs == lcd.msg.Header.TimestampAbs
+//@   ensures [C01.lazy.av.body] isnil(old(lcd.chunksWithSdf)) && lcd.msg.Header.MsgTypeId != 18 ==> callarg(rtmp.Message2Chunks, 0) == lcd.msg.Payload && callarg(rtmp.Message2Chunks, 1).MsgLen == lcd.msg.Header.MsgLen && callarg(rtmp.Message2Chunks, 1).TimestampAbs == lcd.msg.Header.TimestampAbs
 //@ end
